@@ -25,12 +25,14 @@ def main():
         try:
             ans, _ = c20.execute(fresh_objs, w, c, st)
             ans = [[0]] + ans
+        except core.Budget:
+            ans = [[2]]
         except Exception as e:  # noqa
             ans = core.exn_answer(e)
         out.append(ans)
         try:
             c20.execute(objs, w, c, state)
-        except Exception:  # noqa
+        except (Exception, core.Budget):  # noqa
             pass
     print(json.dumps(out))
 
